@@ -5,7 +5,7 @@
 From stdpp Require Import gmap.
 From Coq Require Import NArith.
 From RV Require Import Base.Str Base.Utf8 Base.PathLex Path.Helpers Path.Expand Path.Abs Memfs.State Memfs.Ops Memfs.Walk Memfs.WalkOps Memfs.Step
-  Memfs.Wf Memfs.WfMore Memfs.WfMove Memfs.Spec Memfs.Refine Memfs.RefineMore Memfs.RefineChown Memfs.RefineChmod Memfs.RefineList Memfs.RefineEntries Memfs.RefineCopy Memfs.Names Memfs.CopyFile Memfs.RefineMove Memfs.ContentFacts Memfs.Kinds Memfs.RemoveAll Memfs.LinkFacts
+  Memfs.Wf Memfs.WfMore Memfs.WfMove Memfs.Spec Memfs.Refine Memfs.RefineMore Memfs.RefineChown Memfs.RefineChmod Memfs.RefineChmodSym Memfs.RefineList Memfs.RefineEntries Memfs.RefineCopy Memfs.Names Memfs.CopyFile Memfs.RefineMove Memfs.ContentFacts Memfs.Kinds Memfs.RemoveAll Memfs.LinkFacts
   Macros.Asserts.
 
 Definition resolve_t (env : envmap) (t : tree) (s : list N) : mres rpath :=
@@ -183,14 +183,16 @@ Definition spec_step (env : envmap) (t : tree) (o : op) : option (tree * result)
                           | inr _ => inr EIsNotDir
                           | inl p => if spec_is_dir t p then inl (VPaths (spec_list t k p)) else inr EIsNotDir
                           end)
-  | OChmod s o => if ch_follow o || negb (bool_decide (ch_sym o = [])) || N.eqb (ch_dirs o) 0 || N.eqb (ch_files o) 0 then None else
-                  match resolve_t env t s with
-                  | inr e => Some (t, inr e)
-                  | inl p => match t_nodes t !! p with
-                             | Some _ => Some (spec_chmod t p (ch_recursive o) (ch_dirs o) (ch_files o), inl VUnit)
-                             | None => Some (t, inr EDoesNotExist)
-                             end
-                  end
+  | OChmod s o =>
+      (* covered: no follow, an expression the grammar accepts, no node whose value would be 0 ("no mode given") *)
+      if ch_follow o || negb (chmod_accepts o) || negb (chmod_vals_ok t o) then None else
+      match resolve_t env t s with
+      | inr e => Some (t, inr e)
+      | inl p => match t_nodes t !! p with
+                 | Some _ => Some (spec_chmod_sym t p o, inl VUnit)
+                 | None => Some (t, inr EDoesNotExist)
+                 end
+      end
   | OMkfileM s mode =>
       (* mkfile, then chmod of the returned path as the code re-reads it; covered when that reading is the path itself *)
       if N.eqb mode 0 then None else
@@ -382,12 +384,11 @@ Proof.
       destruct (real_dir_of_spec m ddir HK Hsd) as (pd & Hpd & Hpdr).
       destruct (copy_file_refines env m s d o sp (db :: ddir) db ddir r pd HW HK Es Ed Hne Hr Hrd Hrl eq_refl Hdp Hpd Hpdr) as (m1 & -> & Ha).
       exists m1. done.
-  - (* chmod *) destruct (ch_follow o) eqn:Hnf; [discriminate|]. destruct (bool_decide (ch_sym o = [])) eqn:Hsy; [|discriminate].
-    apply bool_decide_eq_true in Hsy. destruct (N.eqb (ch_dirs o) 0) eqn:Hd0; [discriminate|]. destruct (N.eqb (ch_files o) 0) eqn:Hf0; [discriminate|].
-    apply N.eqb_neq in Hd0, Hf0. cbn [orb negb] in Hs. rewrite <- resolve_abs in Hs.
+  - (* chmod *) destruct (ch_follow o) eqn:Hnf; [discriminate|]. destruct (chmod_accepts o) eqn:Hacc; [|discriminate].
+    destruct (chmod_vals_ok (abs m) o) eqn:Hvals; [|discriminate]. cbn [orb negb] in Hs. rewrite <- resolve_abs in Hs.
     destruct (resolve env m s) as [p|e] eqn:E; [|injection Hs as <- <-; exists m; unfold chmod_op; by rewrite E].
     rewrite lookup_abs in Hs. destruct (m_ents m !! p) as [x|] eqn:Hx; cbn in Hs; injection Hs as <- <-.
-    + destruct (chmod_refines env m s o p x HW HK Hnf Hsy Hd0 Hf0 E Hx) as (m1 & -> & Ha). exists m1. done.
+    + destruct (chmod_sym_refines env m s o p x HW HK Hnf Hacc Hvals E Hx) as (m1 & -> & Ha). exists m1. done.
     + exists m. unfold chmod_op. rewrite E. unfold walk. by rewrite Hx.
   - (* chown *) destruct (co_follow o) eqn:Hnf; [discriminate|]. rewrite <- resolve_abs in Hs.
     destruct (resolve env m s) as [p|e] eqn:E; [|injection Hs as <- <-; exists m; unfold chown_op; by rewrite E].
@@ -442,16 +443,17 @@ Example history_refines_nonvacuous :
           [OMkdirP [47; 97; 47; 98]%N; OMkfileM [47; 97; 47; 98; 47; 102]%N 384%N; OWriteAll [47; 97; 47; 98; 47; 102]%N [1]%N;
            OSymlink [47; 97; 47; 108]%N [47; 97; 47; 98]%N;
            OChmod [47; 97]%N {| ch_dirs := 448; ch_files := 416; ch_follow := false; ch_recursive := true; ch_sym := [] |};
+           OChmod [47; 97]%N {| ch_dirs := 0; ch_files := 0; ch_follow := false; ch_recursive := true; ch_sym := [102; 58; 103; 45; 114]%N |};
            OChown [47; 97; 47; 98]%N {| co_uid := Some 5%N; co_gid := None; co_follow := false; co_recursive := true |};
            OMoveP [47; 97; 47; 98]%N [47; 99]%N; OSetCwd [47; 99]%N; OReadAll [102]%N; OMode [102]%N; ORemoveAll [47; 97]%N; ORoot;
            OList LAllPaths [47]%N; OCopy [47; 99]%N [47; 100]%N {| cp_mode := None; cp_cdirs := false; cp_cfiles := false; cp_follow := false |};
            OReadAll [47; 100; 47; 102]%N; OEntries [47; 100]%N (w_sort_by_name (w_files default_wopts))] with
-  | Some (t, rs) => (size (t_nodes t) =? 5) && (length rs =? 16) &&
-                    match nth 15 rs (inr EDoesNotExist) with inl (VItems [inl [47; 100; 47; 102]%N]) => true | _ => false end &&
-                    match nth 14 rs (inr EDoesNotExist) with inl (VBytes [1%N]) => true | _ => false end &&
-                    match nth 12 rs (inr EDoesNotExist) with inl (VPaths [[47; 99]%N; [47; 99; 47; 102]%N]) => true | _ => false end &&
-                    match nth 8 rs (inr EDoesNotExist) with inl (VBytes [1%N]) => true | _ => false end &&
-                    match nth 9 rs (inr EDoesNotExist) with inl (VNum v) => N.eqb v (N.lor 416 Gen.Consts.c_type_bits_file) | _ => false end
+  | Some (t, rs) => (size (t_nodes t) =? 5) && (length rs =? 17) &&
+                    match nth 16 rs (inr EDoesNotExist) with inl (VItems [inl [47; 100; 47; 102]%N]) => true | _ => false end &&
+                    match nth 15 rs (inr EDoesNotExist) with inl (VBytes [1%N]) => true | _ => false end &&
+                    match nth 13 rs (inr EDoesNotExist) with inl (VPaths [[47; 99]%N; [47; 99; 47; 102]%N]) => true | _ => false end &&
+                    match nth 9 rs (inr EDoesNotExist) with inl (VBytes [1%N]) => true | _ => false end &&
+                    match nth 10 rs (inr EDoesNotExist) with inl (VNum v) => N.eqb v (N.lor 384 Gen.Consts.c_type_bits_file) | _ => false end
   | None => false
   end = true.
 Proof. vm_compute. reflexivity. Qed.
